@@ -1085,10 +1085,28 @@ def gen_tol(rng, tier):
     return None
 
 
+def gen_t_edge(rng, tier):
+    """the null mean ON the boundary of its range (t = u or t = 0; outside 0 < t < u, so no oracle speaks, but the code
+    accepts it and the masks `mu_j is 0 / is u` are what keeps 0/0 out of the history): correspondence only"""
+    for _ in range(8):
+        c = gen_case(rng, tier, "test", force_test=rng.choice(["alpha_mart", "alpha_mart", "betting_mart", "wald_sprt"]))
+        if c["stream"] == "malformed":
+            continue
+        init = c["init"]
+        u = F(init["u_now"] if init.get("u_now") is not None else init["u"])
+        init["t"] = S(rng.choice([u, u, F(0)]))
+        init["kw"].pop("eta", None)
+        c["stream"] = "t-edge:" + c["stream"]
+        return c
+    return None
+
+
 def gen_extra(rng, tier):
     r = rng.random()
     if r < 0.05:
         return gen_long(rng, tier)
+    if r < 0.10:
+        return gen_t_edge(rng, tier)
     if r < 0.20:
         return gen_tol(rng, tier)
     r = rng.random()
